@@ -23,6 +23,11 @@ type c03Case struct {
 	// Directed: a whole scripted history on a fresh world (no fixed prefix): growth of one large
 	// buffer while views of its old storage stay alive, then growth of other buffers.
 	Directed bool `json:"directed,omitempty"`
+	// ValPass: special values (both zeros, infinities, bounds) appended over storage holding the same
+	// values rotated by Shift, in place or (Grow) into new storage, compared by bit pattern (valpass.go)
+	ValPass bool `json:"val_pass,omitempty"`
+	Shift   int  `json:"shift,omitempty"`
+	Grow    bool `json:"grow,omitempty"`
 }
 
 func c03Prefix(cs c03Case) []wop {
@@ -63,6 +68,13 @@ func c03Run(cs c03Case) (fs []F, ok bool, grew, inplace int) {
 }
 
 func c03RunRaw(cs c03Case) (fs []F, ok bool, grew, inplace int) {
+	if cs.ValPass {
+		fs = valAppend(typeByName(cs.Type), cs.C, cs.Shift, cs.Grow)
+		if cs.Grow {
+			return fs, true, 1, 0
+		}
+		return fs, true, 0, 1
+	}
 	w := newWorld(typeByName(cs.Type), cs.C)
 	if cs.Directed {
 		for i, o := range cs.Ops {
@@ -259,8 +271,22 @@ func init() {
 					c.Add("traces_validated_against_impl", 1)
 				}
 			})
+			// special values, by bit pattern, for every element type of the facade
+			vt := valTypes()
+			c.ParallelFor(len(vt), func(i int) {
+				t := vt[i]
+				for C := 1; C <= 3; C++ {
+					for sh := 0; sh < len(valSpecials(t)); sh++ {
+						for _, grow := range []bool{false, true} {
+							cs := c03Case{Type: tn(t), C: C, ValPass: true, Shift: sh, Grow: grow}
+							fs, _, _, _ := c03Run(cs)
+							c.Check(cs, true, fs)
+						}
+					}
+				}
+			})
 			c.Sample(c03Case{Type: "int16", C: 2, P: 3, S: 1, L: 1, Ops: []wop{{K: "append", V: 1, W: 1}, {K: "indep", V: 1, A: 2}}})
-			c.Set("rule", fmt.Sprintf("13 element types x C in 1..3 x root of P<=%d frames x destination window (S,L) x every sequence of <=%d appends with source in {independent buffer of 0..P+2 frames, the destination itself, a second header over the destination's window, every other window of the root}; sequences whose source overlaps the region written are outside the property's domain and skipped; after every append every live view and every storage is compared with the views model, then every view is stamped in turn; non-trivial = at least one append ran; plus every pair of appends from a reduced source menu on large roots (8, 40, 300 frames) for 4 element types", maxP, depth))
+			c.Set("rule", fmt.Sprintf("13 element types x C in 1..3 x root of P<=%d frames x destination window (S,L) x every sequence of <=%d appends with source in {independent buffer of 0..P+2 frames, the destination itself, a second header over the destination's window, every other window of the root}; sequences whose source overlaps the region written are outside the property's domain and skipped; after every append every live view and every storage is compared with the views model, then every view is stamped in turn; non-trivial = at least one append ran; plus every pair of appends from a reduced source menu on large roots (8, 40, 300 frames) for 4 element types; and, for all 39 element types of the facade, buffers of special values (both zeros, infinities, largest/smallest magnitudes, integer bounds) appended in place over storage holding the same values rotated, and into new storage, compared by bit pattern", maxP, depth))
 			c.Assume("capacity chosen by Go's append on growth is an environment answer: only 'whole frames, >= length' is required", "what the spare capacity of freshly grown storage holds is not specified and is adopted")
 		},
 		RunCase: func(c *core.Ctx, raw json.RawMessage) []F {
@@ -269,6 +295,9 @@ func init() {
 		},
 		GoTest: func(raw json.RawMessage) string {
 			cs := decode[c03Case](raw)
+			if cs.ValPass {
+				return ""
+			}
 			ops := cs.Ops
 			if !cs.Directed {
 				ops = append(c03Prefix(cs), cs.Ops...)
